@@ -151,7 +151,7 @@ where
         _inner_type: &Self::InnerType,
         maybe_default_value: &Option<syn::Expr>,
         guard: &Guard<Self::Sanitizer, Self::Validator>,
-        _traits: &HashSet<Self::TypedTrait>,
+        traits: &HashSet<Self::TypedTrait>,
     ) -> TokenStream {
         let test_lower_vs_upper = guard.standard_validators().and_then(|validators| {
             gen_test_should_have_consistent_lower_and_upper_boundaries(type_name, validators)
@@ -162,6 +162,7 @@ where
             generics,
             maybe_default_value,
             guard.has_validation(),
+            traits.contains(&IntegerDeriveTrait::Default),
         );
 
         quote! {
